@@ -77,7 +77,8 @@ def mk(spec):
     if k == 'sparse':
         return spmatrix([num(x) for x in spec['V']], spec['I'], spec['J'], (spec['m'], spec['n']), spec['tc'])
     if k == 'list':
-        return [num(x) for x in spec['v']]
+        vals = [num(x) for x in spec['v']]
+        return tuple(vals) if spec.get('form') == 'tuple' else vals
     raise ValueError(k)
 
 
@@ -244,6 +245,8 @@ def gen_op(rng, w):
         nnz = len(X)
         vtc = tc if rng.random() < 0.9 else rng.choice(['d', 'z'])
         vals = [rint(rng, vtc) for _ in range(nnz if rng.random() < 0.9 else nnz + 1)]
+        if rng.random() < 0.2:
+            return ['setV', t, {'k': 'num', 'v': rint(rng, vtc)}]      # every stored entry set to one number
         return ['setV', t, {'k': 'dense', 'm': len(vals), 'n': 1, 'tc': vtc, 'v': vals}]
     if r < 0.39:
         tot = m * n
@@ -260,15 +263,19 @@ def gen_op(rng, w):
                 return ['iop', t, opn, gen_sparse(rng, rng.choice([tc, tc, 'd', 'z']), m, n)]
             return ['iop', t, opn, {'k': 'num', 'v': rint(rng, 'd')}]
         if opn == '*=':
-            return ['iop', t, opn, {'k': 'num', 'v': rint(rng, tc if rng.random() < 0.8 else 'z')}]
-        return ['iop', t, opn, {'k': 'num', 'v': rng.choice([1.0, -1.0, 2.0, -2.0, 4.0, 0.5])}]
+            return ['iop', t, opn, scalar_spec(rng, rint(rng, tc if rng.random() < 0.8 else 'z'))]
+        return ['iop', t, opn, scalar_spec(rng, rng.choice([1.0, -1.0, 2.0, -2.0, 4.0, 0.5]))]
     if r < 0.57:
         # axpy(x, y): y := alpha*x + y, y = t
         cands = [k for k in w.names() if w.env[k]['X'].size == X.size and w.env[k]['X'].typecode == tc]
         xs = rng.choice(cands) if cands and rng.random() < 0.8 else None
         if xs is None:
             return ['new', w.fresh(), gen_sparse(rng, tc, m, n)]
-        return ['axpy', xs, t, rint(rng, 'd')]
+        if rng.random() < 0.25:
+            # the form the solvers use: sparse x added into a dense y
+            y = w.fresh()
+            return ['seq', ['new', y, gen_dense(rng, m, n, tc)], ['axpy', t, y, galpha(rng, tc), False]]
+        return ['axpy', xs, t, galpha(rng, tc), bool(rng.random() < 0.35)]
     if r < 0.66:
         return gen_gemm(rng, w, t)
     if r < 0.72:
@@ -280,6 +287,25 @@ def gen_op(rng, w):
     if len(w.env) > 2:
         return ['del', rng.choice(list(w.env))]
     return gen_derive(rng, w, t)
+
+
+def scalar_spec(rng, v):
+    """a scalar operand as callers write it: a float or complex number, an int, or a 1x1 dense matrix"""
+    r = rng.random()
+    if r < 0.2 and not isinstance(v, list):
+        return {'k': 'dense', 'm': 1, 'n': 1, 'tc': 'd', 'v': [v]}
+    if r < 0.4 and not isinstance(v, list) and float(v) == int(v):
+        return {'k': 'num', 'v': int(v)}
+    return {'k': 'num', 'v': v}
+
+
+def galpha(rng, tc, nonzero=False):
+    """alpha / beta in the forms callers use: float, int, and complex for complex operands"""
+    r = rng.random()
+    if tc == 'z' and r < 0.35:
+        return rint(rng, 'z', nonzero=nonzero)
+    v = rint(rng, 'd', nonzero=nonzero)
+    return int(v) if r > 0.8 else v
 
 
 def gen_reuse(rng, w, t):
@@ -332,6 +358,12 @@ def gen_rhs(rng, tc, shape, allow_bad=True, scalar_lhs=False):
     if (m, n) == (1, 1) and r >= 0.65:
         r = 0.5         # whether a 1x1 *sparse* right-hand side counts as a scalar is not defined: use dense
     rtc = tc if rng.random() < 0.7 else rng.choice(['d', 'z', 'i'])
+    if r < 0.45 and n == 1:
+        # a plain sequence (list or tuple) on the right-hand side, documented for matrices of either kind
+        vals = [rint(rng, 'd' if rtc == 'i' else rtc) for _ in range(m)]
+        if rtc == 'i':
+            vals = [int(v) for v in vals]
+        return {'k': 'list', 'v': vals, 'form': rng.choice(['list', 'tuple'])}
     if r < 0.65:
         if rtc == 'i':
             return {'k': 'dense', 'm': m, 'n': n, 'tc': 'i', 'v': [rng.randint(-3, 3) for _ in range(m * n)]}
@@ -390,8 +422,13 @@ def gen_gemm(rng, w, t):
     o2, b = operand(bsh)
     if o2:
         pre.append(o2)
-    alpha = rint(rng, 'd')
-    beta = rng.choice([0.0, 1.0, float(rng.randint(-2, 2))])
+    alpha = galpha(rng, tc)
+    beta = rng.choice([0.0, 1.0, float(rng.randint(-2, 2)), rng.randint(-2, 2)] + ([[0.0, 1.0]] if tc == 'z' else []))
+    if rng.random() < 0.25:
+        # dense result with sparse factors: the form the solvers call
+        c = w.fresh()
+        pre.append(['new', c, gen_dense(rng, m, n, tc)])
+        return ['seq'] + pre + [['gemm', a, b, c, tA, tB, alpha, beta, False]]
     op = ['gemm', a, b, t, tA, tB, alpha, beta, bool(rng.random() < 0.5)]
     return ['seq'] + pre + [op] if pre else op
 
@@ -412,7 +449,12 @@ def gen_syrk(rng, w, t):
     else:
         a = w.fresh()
         pre.append(['new', a, gen_sparse(rng, tc, sh[0], sh[1]) if rng.random() < 0.8 else gen_dense(rng, sh[0], sh[1], tc)])
-    op = ['syrk', a, t, tr, rint(rng, 'd'), rng.choice([0.0, 1.0, float(rng.randint(-2, 2))]), bool(rng.random() < 0.5)]
+    uplo = rng.choice(['L', 'L', 'U'])
+    if rng.random() < 0.25:
+        c = w.fresh()
+        pre.append(['new', c, gen_dense(rng, m, m, tc)])
+        return ['seq'] + pre + [['syrk', a, c, tr, galpha(rng, 'd'), rng.choice([0.0, 1.0, float(rng.randint(-2, 2))]), False, uplo]]
+    op = ['syrk', a, t, tr, galpha(rng, 'd'), rng.choice([0.0, 1.0, float(rng.randint(-2, 2))]), bool(rng.random() < 0.5), uplo]
     return ['seq'] + pre + [op] if pre else op
 
 
@@ -423,12 +465,12 @@ def gen_gemv(rng, w, t):
     if rng.random() < 0.3 and m == n:
         x, y = w.fresh(), w.fresh()
         return ['seq', ['new', x, gen_dense(rng, n, 1, tc)], ['new', y, gen_dense(rng, m, 1, tc)],
-                ['symv', t, x, y, rint(rng, 'd'), rng.choice([0.0, 1.0, 2.0])]]
+                ['symv', t, x, y, galpha(rng, tc), rng.choice([0.0, 1.0, 2.0, 2]), rng.choice(['L', 'L', 'U'])]]
     tr = rng.choice(['N', 'T'] + (['C'] if tc == 'z' else []))
     xl, yl = (n, m) if tr == 'N' else (m, n)
     x, y = w.fresh(), w.fresh()
     return ['seq', ['new', x, gen_dense(rng, xl, 1, tc)], ['new', y, gen_dense(rng, yl, 1, tc)],
-            ['gemv', t, x, y, tr, rint(rng, 'd'), rng.choice([0.0, 1.0, 2.0])]]
+            ['gemv', t, x, y, tr, galpha(rng, tc), rng.choice([0.0, 1.0, 2.0, 2])]]
 
 
 def gen_derive(rng, w, t):
@@ -437,7 +479,8 @@ def gen_derive(rng, w, t):
     tc = X.typecode
     kind = rng.choice(['T', 'H', 'real', 'imag', 'abs', 'neg', 'pos', 'add', 'sub', 'mul', 'smul', 'sdiv', 'get1', 'get2', 'get2',
                        'sparse', 'spdiag', 'addnum', 'copy', 'dup', 'emul', 'blocks', 'sum', 'attrs', 'attrs',
-                       'trans', 'ctrans', 'emax', 'emin', 'ediv', 'gblocks', 'gblocks', 'gdiag', 'ctor', 'ctor', 'rsubnum', 'mulnum'])
+                       'trans', 'ctrans', 'emax', 'emin', 'ediv', 'gblocks', 'gblocks', 'gdiag', 'ctor', 'ctor', 'rsubnum', 'mulnum',
+                       'radd', 'rsub', 'rmul', 'sparse1'])
     nm = w.fresh()
     if kind in ('emax', 'emin', 'ediv'):
         if rng.random() < 0.3:
@@ -512,7 +555,17 @@ def gen_derive(rng, w, t):
         return ['derive', nm, 'ctor', t, {'form': form, 'm': mm, 'n': nn, 'I': I, 'J': J, 'V': V, 'scalar': rint(rng, 'd'),
                                           'tc': rng.choice(['d', 'z'])}]
     if kind in ('rsubnum', 'mulnum'):
-        return ['derive', nm, kind, t, {'k': 'num', 'v': rint(rng, tc if rng.random() < 0.8 else 'z')}]
+        return ['derive', nm, kind, t, scalar_spec(rng, rint(rng, tc if rng.random() < 0.8 else 'z'))]
+    if kind in ('radd', 'rsub', 'rmul'):
+        # a dense matrix as the left operand of a sparse one
+        sh = (m, n) if kind != 'rmul' else (rng.randint(0, 3), m)
+        ltc = rng.choice([tc, tc, 'd', 'i'])
+        spec = gen_dense(rng, sh[0], sh[1], 'd' if ltc == 'i' else ltc)
+        if ltc == 'i':
+            spec = dict(spec, tc='i', v=[int(v) for v in spec['v']])
+        return ['derive', nm, kind, t, spec]
+    if kind == 'sparse1':
+        return ['derive', nm, 'sparse1', t, rng.choice([None, None, 'd', 'z'])]
     if kind == 'dup':
         # triplets with repeated positions: the values are added
         mm, nn = rng.randint(1, 4), rng.randint(1, 4)
@@ -535,8 +588,8 @@ def gen_derive(rng, w, t):
     if kind in ('smul', 'sdiv', 'addnum'):
         v = rint(rng, tc if rng.random() < 0.8 else 'z', nonzero=(kind == 'sdiv'))
         if kind == 'sdiv':
-            v = rng.choice([1.0, -1.0, 2.0, -2.0, 0.5, 4.0])
-        return ['derive', nm, kind, t, {'k': 'num', 'v': v}]
+            v = rng.choice([1.0, -1.0, 2.0, -2.0, 0.5, 4.0, 2, -1])
+        return ['derive', nm, kind, t, scalar_spec(rng, v)]
     if kind == 'get1':
         return ['derive', nm, 'get1', t, gen_index(rng, m * n, for_assign=False)]
     if kind == 'get2':
@@ -614,7 +667,7 @@ def ref_gemm(A, B, C, tA, tB, alpha, beta):
         C[idx] = v
 
 
-def ref_syrk_lower(A, C, tr, alpha, beta):
+def ref_syrk_lower(A, C, tr, alpha, beta, uplo='L'):
     n = C.size[0]
     an, ak = A.size if tr == 'N' else (A.size[1], A.size[0])
     if C.size[0] != C.size[1] or an != n:
@@ -623,7 +676,7 @@ def ref_syrk_lower(A, C, tr, alpha, beta):
         raise TypeError('types')
     out = {}
     for j in range(n):
-        for i in range(j, n):
+        for i in (range(j, n) if uplo == 'L' else range(0, j + 1)):
             acc = 0
             for l in range(ak):
                 acc += (A[i, l] * A[j, l]) if tr == 'N' else (A[l, i] * A[l, j])
@@ -649,7 +702,7 @@ def ref_gemv(A, x, y, tr, alpha, beta):
         y[i] = v
 
 
-def ref_symv_lower(A, x, y, alpha, beta):
+def ref_symv_lower(A, x, y, alpha, beta, uplo='L'):
     n = A.size[0]
     if A.size[0] != A.size[1] or x.size != (n, 1) or y.size != (n, 1):
         raise TypeError('dimensions')
@@ -659,16 +712,16 @@ def ref_symv_lower(A, x, y, alpha, beta):
     for i in range(n):
         acc = 0
         for l in range(n):
-            acc += (A[i, l] if i >= l else A[l, i]) * x[l]
+            acc += (A[i, l] if ((i >= l) == (uplo == 'L') or i == l) else A[l, i]) * x[l]
         out.append(alpha * acc + (beta * y[i] if beta != 0 else 0))
     for i, v in enumerate(out):
         y[i] = v
 
 
-def tri_lower_equal(A, B):
+def tri_lower_equal(A, B, uplo='L'):
     m, n = A.size
     for j in range(n):
-        for i in range(j, m):
+        for i in (range(j, m) if uplo == 'L' else range(0, min(j + 1, m))):
             if A[i, j] != B[i, j]:
                 return False
     return True
@@ -748,13 +801,16 @@ def apply(op, w, stats):
             # refused: wrong length or a type that would change the typecode — nothing may have changed
             bump('refused')
             return
-        if val.size[0] != len(X):
+        scalar = not isinstance(val, matrix)
+        if not scalar and val.size[0] != len(X):
             raise Mismatch('refusal-missing', 'V assignment of length %d accepted for %d entries' % (val.size[0], len(X)), op=kind)
+        if scalar and isinstance(val, complex) and X.typecode == 'd':
+            raise Mismatch('refusal-missing', 'a complex number was accepted as V of a real sparse matrix', op=kind)
         # twin: same pattern, new values
         I, J = X.I, X.J
         D = matrix(0, X.size, X.typecode)
         for k in range(len(I)):
-            D[I[k], J[k]] = val[k]
+            D[I[k], J[k]] = val if scalar else val[k]
         e['D'] = D
         e['mut'] += 1
         return
@@ -829,26 +885,48 @@ def apply(op, w, stats):
         return
     if kind == 'axpy':
         x, y = env[op[1]], env[op[2]]
-        alpha = op[3]
+        alpha = num(op[3])
+        partial = bool(op[4]) if len(op) > 4 else False
         Xd = x['D'] if x['sparse'] else x['X']
+        Y = y['X']
+        pattern = set(zip(Y.I, Y.J)) if (partial and y['sparse']) else None
 
         def fs():
-            base.axpy(x['X'], y['X'], alpha)
+            if partial:
+                base.axpy(x['X'], Y, alpha, partial=True)
+            else:
+                base.axpy(x['X'], Y, alpha)
 
         def fd():
             if Xd.size != y['D'].size or Xd.typecode != y['D'].typecode:
                 raise TypeError('dimensions')
+            if isinstance(alpha, complex) and Xd.typecode != 'z':
+                raise TypeError('complex alpha for real operands')
             vals = [alpha * Xd[i] + y['D'][i] for i in range(len(Xd))]
             for i, v in enumerate(vals):
                 y['D'][i] = v
         _, _, refused = both(kind, fs, fd)
+        if not refused and pattern is not None:
+            bump('probe.axpy_partial_on_existing_pattern')
+            D = y['D']
+            for j in range(D.size[1]):
+                for i in range(D.size[0]):
+                    if (i, j) not in pattern:
+                        D[i, j] = 0
+            if set(zip(Y.I, Y.J)) != pattern:
+                raise Mismatch('partial-changed-pattern', 'axpy(partial=True) changed the sparsity pattern of y', op=kind)
+        if not refused and not y['sparse']:
+            bump('probe.sparse_operand_into_dense_result')
         y['mut'] += 0 if refused else 1
         return
     if kind == 'gemm':
         a, b, c = env[op[1]], env[op[2]], env[op[3]]
-        tA, tB, alpha, beta, partial = op[4], op[5], op[6], op[7], op[8]
+        tA, tB, alpha, beta, partial = op[4], op[5], num(op[6]), num(op[7]), op[8]
         C = c['X']
+        partial = partial and c['sparse']
         pattern = set(zip(C.I, C.J)) if partial else None
+        if not c['sparse']:
+            bump('probe.sparse_operand_into_dense_result')
         Ad = a['D'] if a['sparse'] else a['X']
         Bd = b['D'] if b['sparse'] else b['X']
 
@@ -872,16 +950,20 @@ def apply(op, w, stats):
         return
     if kind == 'syrk':
         a, c = env[op[1]], env[op[2]]
-        tr, alpha, beta, partial = op[3], op[4], op[5], op[6]
+        tr, alpha, beta, partial = op[3], num(op[4]), num(op[5]), op[6]
+        uplo = op[7] if len(op) > 7 else 'L'
         C = c['X']
+        partial = partial and c['sparse']
         pattern = set(zip(C.I, C.J)) if partial else None
         Ad = a['D'] if a['sparse'] else a['X']
+        if not c['sparse']:
+            bump('probe.sparse_operand_into_dense_result')
 
         def fs():
-            base.syrk(a['X'], C, 'L', tr, alpha, beta, partial)
+            base.syrk(a['X'], C, uplo, tr, alpha, beta, partial)
 
         def fd():
-            ref_syrk_lower(Ad, c['D'], tr, alpha, beta)
+            ref_syrk_lower(Ad, c['D'], tr, alpha, beta, uplo)
         _, _, refused = both(kind, fs, fd, tc=C.typecode)
         if not refused:
             D = c['D']
@@ -889,13 +971,14 @@ def apply(op, w, stats):
             if partial:
                 bump('probe.syrk_partial_on_existing_pattern')
                 for j in range(D.size[1]):
-                    for i in range(j, D.size[0]):
+                    for i in (range(j, D.size[0]) if uplo == 'L' else range(0, j + 1)):
                         if (i, j) not in pattern:
                             D[i, j] = 0
                 if set(zip(C.I, C.J)) != pattern:
                     raise Mismatch('partial-changed-pattern', 'syrk(partial=True) changed the sparsity pattern of C', op=kind)
-            if not tri_lower_equal(Cd, D):
-                raise Mismatch('twin-differs', 'syrk: lower triangle of C differs from the dense computation', op=kind, partial=partial)
+            if not tri_lower_equal(Cd, D, uplo):
+                raise Mismatch('twin-differs', 'syrk: the %s triangle of C differs from the dense computation' % ('lower' if uplo == 'L' else 'upper'),
+                               op=kind, partial=partial, uplo=uplo)
             c['D'] = Cd          # the strictly upper triangle is not referenced: resynchronise
         c['mut'] += 0 if refused else 1
         return
@@ -903,7 +986,7 @@ def apply(op, w, stats):
         a, x, y = env[op[1]], env[op[2]], env[op[3]]
         Ad = a['D']
         if kind == 'gemv':
-            tr, alpha, beta = op[4], op[5], op[6]
+            tr, alpha, beta = op[4], num(op[5]), num(op[6])
 
             def fs():
                 base.gemv(a['X'], x['X'], y['X'], tr, alpha, beta)
@@ -911,13 +994,14 @@ def apply(op, w, stats):
             def fd():
                 ref_gemv(Ad, x['D'], y['D'], tr, alpha, beta)
         else:
-            alpha, beta = op[4], op[5]
+            alpha, beta = num(op[4]), num(op[5])
+            uplo = op[6] if len(op) > 6 else 'L'
 
             def fs():
-                base.symv(a['X'], x['X'], y['X'], 'L', alpha, beta)
+                base.symv(a['X'], x['X'], y['X'], uplo, alpha, beta)
 
             def fd():
-                ref_symv_lower(Ad, x['D'], y['D'], alpha, beta)
+                ref_symv_lower(Ad, x['D'], y['D'], alpha, beta, uplo)
         both(kind, fs, fd)
         return
     if kind == 'derive':
@@ -1009,6 +1093,8 @@ def apply(op, w, stats):
             v = mk(op[4])
             if dk == 'smul':
                 fs, fd = (lambda: v * X), (lambda: v * D)
+                if isinstance(v, matrix) and X.size[0] == 1:
+                    expect_sparse = False       # (1x1 dense) * (1 x n sparse) is a matrix product: dense
             elif dk == 'sdiv':
                 fs, fd = (lambda: X / v), (lambda: D / v)
             else:
@@ -1152,6 +1238,25 @@ def apply(op, w, stats):
                 for i, j, v in zip(Il, Jl, V):
                     R[i, j] += v
                 return R
+        elif dk in ('radd', 'rsub', 'rmul'):
+            L = mk(op[4])
+            expect_sparse = False
+            if dk == 'radd':
+                fs, fd = (lambda: L + X), (lambda: L + D)
+            elif dk == 'rsub':
+                fs, fd = (lambda: L - X), (lambda: L - D)
+            else:
+                fs, fd = (lambda: L * X), (lambda: L * D)
+        elif dk == 'sparse1':
+            tcx = op[4]
+            if tcx and X.size[0] * X.size[1] == 0:
+                return      # type conversion of an empty matrix: the dense constructor is lenient, nothing to compare
+            kw = {'tc': tcx} if tcx else {}
+            fs = (lambda: sparse(X, **kw))
+
+            def fd():
+                R = matrix(D, **kw)
+                return R
         elif dk in ('rsubnum', 'mulnum'):
             v = mk(op[4])
             if dk == 'rsubnum':
@@ -1159,6 +1264,8 @@ def apply(op, w, stats):
                 expect_sparse = False
             else:
                 fs, fd = (lambda: X * v), (lambda: D * v)
+                if isinstance(v, matrix) and X.size[1] == 1:
+                    expect_sparse = False       # (m x 1 sparse) * (1x1 dense) is a matrix product: dense
         elif dk == 'sparse':
             fs, fd = (lambda: sparse([[X, X], [X, X]]) if X.size[0] * X.size[1] else sparse(X)), \
                      (lambda: matrix([[D, D], [D, D]]) if D.size[0] * D.size[1] else +D)
@@ -1193,6 +1300,8 @@ def apply(op, w, stats):
             if any(abs(rsd[i] - rd[i]) > 1e-12 * (1 + abs(rd[i])) for i in range(len(rd))):
                 raise Mismatch('twin-differs', 'abs of a complex sparse matrix differs from the dense computation', op='derive.abs')
             return
+        if dk == 'sparse1' and isinstance(rs, spmatrix) and any(v == 0 for v in rs.V):
+            raise Mismatch('stored-zero-kept', 'sparse(x) kept a numerically zero entry (documented: zeros are removed)', op='derive.sparse1')
         if isinstance(rs, (matrix, spmatrix)):
             if isinstance(rs, spmatrix) != expect_sparse:
                 raise Mismatch('result-class', '%s returned %s, documented result is %s' %
